@@ -1,13 +1,163 @@
+import random
+
+from .. import cases
+from ..rec import rec
 from .common import grid_plan, need_classes
 
 LEVEL = "exploration"
-RULE = "file validator on every written grid + hostile inputs + shipped configurations (see DESIGN.md C12)"
-ASSUMPTIONS = ["documented variable list taken from doc/grid-file.rst"]
+RULE = (
+    "(a) the file validator (documented variables/shapes, finiteness with the documented NaNs, hy,dy>0, no folded "
+    "cell) on every grid of the corpus; (b) hostile inputs through the API and the three command-line entry points "
+    "(wrong types, out-of-range values, misspelled names, mesh options differing from equilibrium options, impossible "
+    "psi ranges, nx/ny=1, walls not containing the X-point, tiny iteration limits / Nfine, corrupted geqdsk text): the "
+    "outcome must be an exception or a file that passes the validator; inputs that must be rejected are checked to "
+    "be rejected; (c) every shipped example / reference option file must generate; distinct = distinct inputs"
+)
+ASSUMPTIONS = ["documented variable list from doc/grid-file.rst", "a watchdog expiry is inconclusive for that input, not a violation"]
+
+
+def hostile(tier, seed):
+    rnd = random.Random(1234 + seed)
+    out = []
+
+    def api(tag, must_reject=False, **kw):
+        s = cases.tok("lsn", s=1, fs=1, tag="hostile-" + tag)
+        s["opts"].update(kw.pop("opts", {}))
+        s.update(kw)
+        s["hostile"] = True
+        s["c12_class"] = "hostile|api"
+        s["must_reject"] = must_reject
+        s["timeout"] = 600
+        out.append(s)
+
+    def cli(tag, must_reject=False, kind="cli_geqdsk", **kw):
+        s = cases.tok("lsn", s=1, fs=1, tag="hostile-cli-" + tag)
+        s["kind"] = kind
+        s.update(kw)
+        s["hostile"] = True
+        s["c12_class"] = "hostile|" + kind
+        s["must_reject"] = must_reject
+        s["timeout"] = 600
+        out.append(s)
+
+    # wrong types / out of range / invalid -> must be rejected
+    bad = [
+        ("nx_core", "three"), ("nx_core", 2.5), ("nx_core", 0), ("nx_sol", -1), ("ny_sol", 0), ("orthogonal", "yes"),
+        ("y_boundary_guards", -1), ("xpoint_offset", 1.5), ("xpoint_offset", 0.0), ("finecontour_Nfine", 0),
+        ("psi_interpolation_method", "cubic"), ("poloidal_spacing_method", "quadratic"), ("curvature_type", "bxkappa2"),
+        ("number_of_processors", 0), ("refine_atol", -1.0), ("psinorm_core", "0.9"), ("geometry_rtol", 0.0),
+        ("curvature_smoothing", "gaussian"), ("refine_methods", "secant"), ("follow_perpendicular_rtol", -1e-8),
+    ]  # fmt: skip
+    for k, (name, val) in enumerate(bad if tier == "thorough" else bad[:10]):
+        api("invalid-%s-%d" % (name, k), must_reject=True, opts={name: val})
+    # mesh options differing from equilibrium options -> must be rejected
+    api("mesh-differs-nx", must_reject=True, mesh_opts_override={"nx_core": 4})
+    api("mesh-differs-orth", must_reject=True, mesh_opts_override={"orthogonal": False})
+    if tier == "thorough":
+        api("mesh-differs-guards", must_reject=True, mesh_opts_override={"y_boundary_guards": 2})
+        api("mesh-differs-interp", must_reject=True, mesh_opts_override={"psi_interpolation_method": "dct"})
+    # unknown option names through the command-line entry points -> must be rejected
+    cli("unknown-option", must_reject=True, yaml_update={"nx_cor": 3})
+    cli("unknown-option-2", must_reject=True, yaml_update={"target_poloidal_spacing_length": 1})
+    s = cases.circ()
+    s.update(kind="cli_circ", tag="hostile-cli-circ-unknown", hostile=True, c12_class="hostile|cli_circ", must_reject=True, yaml_update={"nx_cor": 3})
+    out.append(s)
+    # impossible / extreme settings: either outcome, but never a malformed file
+    soft = [
+        dict(opts={"psinorm_core": 1.1}), dict(opts={"psinorm_sol": 0.9}), dict(opts={"psinorm_pf": 1.05}), dict(opts={"psinorm_core": 0.0}),
+        dict(opts={"nx_core": 1, "nx_sol": 1}), dict(opts={"ny_inner_divertor": 1, "ny_outer_divertor": 1, "ny_sol": 2}),
+        dict(wall={"kind": "box", "inset": 0.25}), dict(wall={"kind": "box", "inset": 0.29}), dict(opts={"follow_perpendicular_maxits": 5}),
+        dict(opts={"finecontour_maxits": 1}), dict(opts={"finecontour_Nfine": 5}), dict(opts={"finecontour_Nfine": 12}), dict(opts={"xpoint_refine_maxits": 1}),
+        dict(opts={"refine_maxits": 1}) if False else dict(opts={"refine_width": 1e-9}), dict(opts={"psi_spacing_separatrix_multiplier": 20.0}),
+        dict(opts={"psi_spacing_separatrix_multiplier": 0.01}), dict(opts={"xpoint_poloidal_spacing_length": 5.0}), dict(opts={"target_all_poloidal_spacing_length": 1e-4}),
+        dict(opts={"y_boundary_guards": 6}), dict(opts={"poloidal_spacing_method": "linear"}), dict(opts={"poloidal_spacing_method": "monotonic", "xpoint_poloidal_spacing_length": 2.0}),
+        dict(opts={"psinorm_sol": 3.0}), dict(opts={"leg_refine_maxits": 1}), dict(opts={"follow_perpendicular_recover": True, "follow_perpendicular_maxits": 20}),
+        dict(opts={"orthogonal": False, "nonorthogonal_xpoint_poloidal_spacing_length": 10.0}), dict(opts={"extrapolate_profiles": True}),
+        dict(opts={"extrapolate_profiles": True, "psi_sol": 0.5}), dict(opts={"refine_timeout": 0.001}), dict(opts={"cap_Bp_ylow_xpoint": True}),
+        dict(opts={"curvature_smoothing": "smoothnl"}), dict(opts={"shiftedmetric": False}), dict(opts={"start_at_upper_outer": True}),
+    ]  # fmt: skip
+    if tier == "quick":
+        soft = soft[:12]
+    for k, kw in enumerate(soft):
+        api("soft-%d" % k, **kw)
+    two_point = cases.tok("lsn", tag="hostile-two-point-wall")
+    two_point.update(hostile=True, c12_class="hostile|api", must_reject=True, wall={"kind": "box"}, wall_points=[[1.2, -0.5], [1.8, 0.5]])
+    out.append(two_point)
+    # corrupted geqdsk text
+    muts = [{"kind": "truncate", "frac": 0.5}, {"kind": "truncate", "frac": 0.97}, {"kind": "garbage", "line": 7}, {"kind": "dropline", "line": 12}, {"kind": "nan", "line": 20}, {"kind": "empty"}]
+    if tier == "quick":
+        muts = muts[:3]
+    for k, m in enumerate(muts):
+        cli("geqdsk-%s-%d" % (m["kind"], k), geqdsk_mutation=m)
+    if tier == "thorough":
+        for topo in ("cdn", "udn", "usn"):
+            for k in range(6):
+                o = {}
+                for _ in range(3):
+                    name, val = rnd.choice([("nx_core", rnd.choice([1, 2, 9])), ("ny_sol", rnd.choice([2, 4, 14])), ("y_boundary_guards", rnd.choice([0, 3, 5])), ("psinorm_sol", rnd.choice([1.01, 1.5, 2.5])), ("psinorm_core", rnd.choice([0.2, 0.99])), ("finecontour_Nfine", rnd.choice([8, 30, 400])), ("psi_spacing_separatrix_multiplier", rnd.choice([0.05, 3.0, None])), ("xpoint_poloidal_spacing_length", rnd.choice([0.005, 0.5])), ("orthogonal", rnd.choice([True, False]))])
+                    o[name] = val
+                s = cases.tok(topo, s=rnd.choice([1, -1]), fs=1, tag="hostile-rnd-%s-%d" % (topo, k))
+                s["opts"].update(o)
+                s.update(hostile=True, c12_class="hostile|api", must_reject=False, timeout=900)
+                out.append(s)
+    return out
+
+
+def shipped(tier):
+    out = []
+    geos = ["lsn", "usn", "cdn", "udn", "ldn", "udn2"] if tier == "thorough" else ["lsn", "cdn", "ldn"]
+    for g in geos:
+        out.append({"kind": "example", "geometry": g, "tag": "shipped-example-" + g, "c12_class": "shipped|tokamak_example", "must_generate": True, "timeout": 1500})
+    for name, topo in (("geqdsk_cdn.yaml", "cdn"), ("geqdsk_ldn.yaml", "ldn")):
+        s = cases.tok(topo, s=1, fs=1, tag="shipped-" + name)
+        s.update(kind="cli_geqdsk", yaml_file=name, c12_class="shipped|" + name, must_generate=True, timeout=1500)
+        s["opts"] = {}
+        out.append(s)
+    if tier == "thorough":
+        for name in ("torpex-coils", "torpex-coils-nonorth"):
+            s = cases.torpex(name)
+            s.update(c12_class="shipped|" + name, must_generate=True)
+            out.append(s)
+        for sub, files in (("connected_doublenull_orthogonal", ["test_orthogonal.yml", "test_orthogonal_all-options.yml", "test_orthogonal_np2.yml"]), ("connected_doublenull_nonorthogonal", ["test_nonorthogonal.yml", "test_nonorthogonal_all-options.yml", "test_nonorthogonal_np2.yml"])):
+            for f in files:
+                s = cases.tok("cdn", s=1, fs=1, tag="shipped-" + f)
+                s.update(kind="cli_geqdsk", yaml_file="integrated_tests/%s/%s" % (sub, f), c12_class="shipped|integrated_tests option file (on a generated eqdsk)", must_generate=False, options_must_be_accepted=True, timeout=2400)
+                s["opts"] = {}
+                out.append(s)
+    return out
 
 
 def plan(tier, seed):
-    return grid_plan(tier, seed, "C12")
+    p = grid_plan(tier, seed, "C12")
+    p["cases"] = p["cases"] + hostile(tier, seed) + shipped(tier)
+    return p
+
+
+def case_records(res):
+    """Records derived from the outcome of a case (not from a monitor)."""
+    spec, gen = res["spec"], res.get("gen")
+    out = []
+    if gen is None:
+        return out
+    cls = spec.get("c12_class")
+    if cls is None:
+        return out
+    ok = gen["outcome"] == "ok"
+    what = "%s %s" % (spec.get("tag"), ("-> %s at %s: %s" % (gen.get("exc_type"), gen.get("stage"), (gen.get("exc_msg") or "")[:160])) if not ok else "-> grid written")
+    if spec.get("must_reject"):
+        out.append(rec("input that must be rejected is rejected with an exception", cls, 1, 1.0 if ok else 0.0, 0, sig=what if ok else None, where={"case": spec.get("tag"), "outcome": gen["outcome"], "exception": gen.get("exc_type")}))
+    elif spec.get("must_generate"):
+        out.append(rec("shipped configuration generates", cls, 1, 0.0 if ok else 1.0, 0, sig=what if not ok else None, where={"case": spec.get("tag")}))
+    elif spec.get("options_must_be_accepted"):
+        rejected = (not ok) and ("not used" in (gen.get("exc_msg") or "") or gen.get("stage") in ("start",))
+        out.append(rec("shipped option file: options accepted", cls, 1, 1.0 if rejected else 0.0, 0, sig=what if rejected else None))
+    else:
+        out.append(rec("hostile input: explicit exception or a written grid", cls, 1, 0.0, 0, where={"case": spec.get("tag"), "outcome": gen["outcome"], "exception": gen.get("exc_type")}))
+    if gen.get("file_left_behind"):
+        out.append(rec("no partial grid file left behind by a failing writeGridfile", cls, 1, 1.0, 0, sig=what))
+    return out
 
 
 def required(tier, classes, records):
-    return []
+    pats = [("grid files of the corpus", r"^(lsn|usn|cdn|ldn|udn)\|"), ("hostile via API", r"hostile\|api"), ("hostile via hypnotoad-geqdsk", r"hostile\|cli_geqdsk"), ("hostile via hypnotoad-circular", r"hostile\|cli_circ"), ("shipped tokamak_example", r"shipped\|tokamak_example"), ("shipped geqdsk yaml", r"shipped\|geqdsk_")]
+    return need_classes(classes, pats)
